@@ -211,6 +211,37 @@ fn blocking_oracle(p: &ProgInfo, inputs: &[Vec<Vec<u64>>], outs: &[Vec<Vec<Strin
     }
 }
 
+/// The real partition of a corpus program in terms of the model's node ids: the subgraphs in
+/// `subgraph_toposort` order, each listing the `n<id>` statements whose operators it contains
+/// (first occurrence of an id only; handoffs and the anonymous `for_each` sinks are not nodes).
+fn real_schedule(src: &str) -> Option<String> {
+    let code = syn::parse_str::<dfir_lang::parse::DfirCode>(src).ok()?;
+    let out = hv_common::catch(std::panic::AssertUnwindSafe(|| dfir_lang::graph::build_dfir_code(code, &quote::quote!(dfir_rs)))).ok()?.ok()?;
+    let g = &out.partitioned_graph;
+    let mut seen = std::collections::BTreeSet::new();
+    let mut groups: Vec<String> = vec![];
+    for &sg in g.subgraph_toposort() {
+        let mut ids: Vec<String> = vec![];
+        for &node in g.subgraph(sg) {
+            let Some(v) = g.node_varname(node) else { continue };
+            let name = v.0.to_string();
+            let digits: String = name.trim_start_matches('n').chars().take_while(|c| c.is_ascii_digit()).collect();
+            let Ok(id) = digits.parse::<usize>() else { continue };
+            if seen.insert(id) {
+                ids.push(id.to_string());
+            }
+        }
+        if !ids.is_empty() {
+            groups.push(ids.join(","));
+        }
+    }
+    Some(groups.join("|"))
+}
+
+thread_local! {
+    static SCHED_CACHE: std::cell::RefCell<BTreeMap<&'static str, Option<String>>> = const { std::cell::RefCell::new(BTreeMap::new()) };
+}
+
 /// one case: program `p`, input history `inputs`; prints lines, runs oracles
 fn run_case(no: u64, p: &ProgInfo, inputs: &[Vec<Vec<u64>>], mode: &str, rec: &mut Recorder) {
     let ticks = inputs.first().map(|s| s.len()).unwrap_or(0);
@@ -222,6 +253,18 @@ fn run_case(no: u64, p: &ProgInfo, inputs: &[Vec<Vec<u64>>], mode: &str, rec: &m
     if with_variant {
         for l in p.perturb.lines() {
             rec.line(l, "ok");
+        }
+    }
+    if mode == "c22" && p.kind != "finding" {
+        // the partition the real compiler chose, as a schedule of the model's nodes: the driver
+        // checks that it is a well-formed order (hypothesis of `sched_refines_denot`) and then
+        // evaluates the ticks subgraph by subgraph
+        let sch = SCHED_CACHE.with(|c| c.borrow_mut().entry(p.name).or_insert_with(|| real_schedule(p.src)).clone());
+        if let Some(sch) = sch {
+            rec.line(&format!("sched {sch}"), "ok");
+            rec.count(&format!("subgraphs:{}", sch.split('|').count().min(9)));
+        } else {
+            rec.count("no-schedule");
         }
     }
     let modes = sink_modes(p.desc);
